@@ -76,9 +76,26 @@ def shard_large_table(spec: Dict[str, Any]) -> Dict[str, Any]:
 
 def check_macro_program(rng: random.Random, counters: Dict[str, Any]) -> Tuple[List[Tuple[str, str, Any]], Optional[str]]:
     gen = macrogen.generate(rng)
-    status_m, _, labels_m = c03.assemble_files(gen.files, gen.w, 'macro16')
+    n_eval = counters.get('monitor_evaluations', 0)
+    stale = n_eval % 5 == 2
+    if stale:
+        # the output paths already hold the files of an EARLIER assembly of the same sources at another width (same label names,
+        # other addresses): the table on disk afterwards must be the one of this assembly
+        other_w = {64: 32, 32: 64, 16: 32}.get(gen.w, 64)
+        c03.assemble_files(gen.files, other_w, 'macro16')
+        counters['assemblies_over_existing_output_files'] = counters.get('assemblies_over_existing_output_files', 0) + 1
+    status_m, _, labels_m = c03.assemble_files(gen.files, gen.w, 'macro16', keep_existing=stale)
     status_i, _, labels_i = c03.assemble_files([('f1', gen.inlined)], gen.w, 'inlined16')
-    counters['monitor_evaluations'] = counters.get('monitor_evaluations', 0) + 1
+    counters['monitor_evaluations'] = n_eval + 1
+    if status_m == 'ok' and n_eval % 3 == 0:
+        # the table is a function of the sources: assembling them again in the same process gives the same table, synthetic
+        # labels (macro start labels, wflip areas) included
+        status_again, _, labels_again = c03.assemble_files(gen.files, gen.w, 'macro16')
+        counters['tables_compared_with_a_second_assembly'] = counters.get('tables_compared_with_a_second_assembly', 0) + 1
+        if status_again != 'ok' or labels_again != labels_m or list(labels_again) != list(labels_m):
+            missing = sorted(set(labels_m) ^ set(labels_again or {}))[:3]
+            return [('table-differs-on-second-assembly', f'the same sources assembled twice in one process give different tables (names that differ: {missing})',
+                     {'files': gen.files, 'w': gen.w})], None
     if status_m != 'ok' or status_i != 'ok':
         counters['macro_programs_not_assembled'] = counters.get('macro_programs_not_assembled', 0) + 1
         return [], None
